@@ -33,7 +33,7 @@ import vlib
 
 ALPHABET = [97, 32, 10, 13, 233, 8364, 128512, 12, 8232]   # a, space, LF, CR, e-acute, euro, U+1F600, FF, U+2028
 THEOREMS = ["C10_line", "C10_line_inside_crlf", "C10_boundary_cases", "C10_roundtrip", "C10_clamp", "C10_column",
-            "C10_line_exists", "C10_monotone", "C10_impl_correct", "C10_impl_folding_range", "C10_impl_wrappers",
+            "C10_line_exists", "C10_monotone", "C10_impl_correct", "C10_impl_folding_range", "C10_impl_wrappers", "C10_impl_every_offset",
             "C10_impl_new", "C10_impl_partitioned", "C10_impl_char_boundary"]
 TRUSTED = [
     "Coq 8.16.1 kernel (coqc; vm_compute not needed by these proofs); no axioms (Print Assumptions: closed under the global context)",
@@ -392,6 +392,94 @@ def coq_cone(rel):
     return seen
 
 
+def extraction_check(exe, texts):
+    """cross-check of extraction + OCaml driver: the same cases evaluated INSIDE Coq (vm_compute on the model and on
+    the specification) must print what the extracted program prints.  Returns (bad, n_values)."""
+    import re
+    cases, metas = [], []
+    for cps in texts:
+        g = grid(cps)
+        cases.append(case_line(cps, g, 1))
+        metas.append((cps, g))
+    ext_impl = run_model(exe, cases, "impl")
+    ext_spec = run_model(exe, cases, "spec")
+    lst = lambda xs: "[" + "; ".join(xs) + "]"
+    body = ["From Coq Require Import List NArith.", "From TG.Model Require Import Chars LineIndex.",
+            "Import ListNotations.", "Open Scope N_scope.",
+            "Definition pairs_of (os : list N) (ohi : N) : list (N * N) :=",
+            "  flat_map (fun a => map (fun d => (a, a + d)) (filter (fun d => a + d <=? ohi) [0; 1; 2])) os.",
+            "Definition run_case (t : text) (os : list N) (ohi : N) (ps : list (N * N)) :=",
+            "  match li_new t with",
+            "  | Panic _ => None",
+            "  | Ok li => Some (map (to_proto_position li) os, map (from_proto_position li) ps,",
+            "                   map (to_proto_range li) (pairs_of os ohi), map (to_proto_folding_range li) (pairs_of os ohi),",
+            "                   map (pos_of t) os, map (fun p => off_of t (fst p) (snd p)) ps)",
+            "  end."]
+    for cps, g in metas:
+        olo, ohi, llo, lhi, clo, chi = g
+        os_ = [str(o) for o in range(olo, ohi + 1)]
+        ps_ = ["(%d, %d)" % (l, c) for l in range(llo, lhi + 1) for c in range(clo, chi + 1)]
+        body.append('Goal True. idtac "@@CASE". Abort.')
+        body.append("Eval vm_compute in run_case %s %s %d %s." % (lst(map(str, cps)), lst(os_), ohi, lst(ps_)))
+    d = os.path.join(vlib.CACHE, "lines")
+    os.makedirs(d, exist_ok=True)
+    path = os.path.join(d, "Cases_%d.v" % os.getpid())
+    open(path, "w").write("\n".join(body) + "\n")
+    try:
+        with vlib.Lock("coq"):
+            rc, out = vlib.sh(["coqc", "-noglob", "-Q", "gen", "TG.Gen", "-Q", "model", "TG.Model", path], cwd=vlib.COQ, timeout=600)
+    finally:
+        for ext in (".v", ".vo", ".vok", ".vos", ".glob"):
+            try:
+                os.remove(path[:-2] + ext)
+            except OSError:
+                pass
+    if rc != 0:
+        return [{"error": "coqc on the generated cases failed", "log": out[-800:]}], 0
+    chunks = out.split("@@CASE")[1:]
+    if len(chunks) != len(metas):
+        return [{"error": "coqc printed %d cases, expected %d" % (len(chunks), len(metas))}], 0
+    bad, n = [], 0
+    for (cps, g), txt, ei, es in zip(metas, chunks, ext_impl, ext_spec):
+        txt = txt.split("\n     : ")[0]
+        txt = " ".join(txt.split())
+        # six lists in order; tokens: Ok (a, b) | Ok (a, b, (c, d)) | Ok n | Panic X
+        m = re.match(r"= Some \((.*)\)$", txt)
+        if not m:
+            bad.append({"text": cps, "coq": txt[:200], "extracted": ei[:200]})
+            continue
+        lists = re.findall(r"\[(.*?)\]", m.group(1))
+        if len(lists) != 6:
+            bad.append({"text": cps, "coq": txt[:200], "error": "expected six lists"})
+            continue
+
+        def toks(body, kind):
+            out_ = []
+            for item in [x.strip() for x in body.split(";")] if body.strip() else []:
+                nums = re.findall(r"\d+", item)
+                if item.startswith("Panic"):
+                    out_.append("!")
+                elif kind == "pos":
+                    out_.append("%s:%s" % tuple(nums))
+                elif kind == "off":
+                    out_.append(nums[0])
+                elif kind == "rng":
+                    out_.append("%s:%s-%s:%s" % tuple(nums))
+                else:
+                    out_.append("%s-%s" % tuple(nums))
+            return out_
+        coq_impl = [toks(lists[0], "pos"), toks(lists[1], "off"), toks(lists[2], "rng"), toks(lists[3], "fold")]
+        coq_spec = [toks(lists[4], "pos"), toks(lists[5], "off")]
+        xi = split_obs(ei)
+        xs = [x.split(" ") if x else [] for x in es.split("|")]
+        got_impl = [xi[0], xi[1], xi[2], xi[4]]
+        n += sum(len(x) for x in coq_impl) + sum(len(x) for x in coq_spec)
+        if coq_impl != got_impl or coq_spec != xs[:2]:
+            bad.append({"text": cps, "coq_vm_compute": [" ".join(x)[:120] for x in coq_impl + coq_spec],
+                        "extracted": [" ".join(x)[:120] for x in got_impl + xs[:2]]})
+    return bad, n
+
+
 def run(ctx):
     t0 = time.time()
     bindir = vlib.build_harness(False, bins=["linesdump"])
@@ -456,6 +544,12 @@ def run(ctx):
             (0, 127, 128, 2047, 2048, 65535, 65536, 1114111, 55295, 57344)]
     enc_bad = encoding_check(exe, side)
     spec_bad, spec_n = spec_check(exe, side)
+    xt_texts = corpus + [t for t, _ in texts[len(corpus) + 10:len(corpus) + 820:9]] + [r[:24] for r in rnd[:30]]
+    xt_bad, xt_n = extraction_check(exe, xt_texts)
+    if not xt_bad and xt_n < 1000:
+        xt_bad = [{"error": "extraction cross-check compared only %d values" % xt_n}]
+    for b in xt_bad[:3]:
+        fails.append({"kind": "correspondence", "file": "extracted-model-vs-vm_compute-in-Coq", "detail": b})
     for b in enc_bad[:3]:
         fails.append({"kind": "correspondence", "file": "model-utf8-encoder", "detail": b})
     for b in spec_bad[:3]:
@@ -508,6 +602,7 @@ def run(ctx):
     ctx.cov["correspondence_disagreements"] = len(corr_fail)
     ctx.cov["coq_spec_vs_reference_queries"] = spec_n
     ctx.cov["model_encoder_texts_checked"] = len(side)
+    ctx.cov["extraction_crosscheck"] = {"texts": len(xt_texts), "values_compared_with_vm_compute": xt_n, "disagreements": len(xt_bad)}
     sample_texts = [corpus[0], corpus[5], all_cps[len(corpus) + 7000 % max(1, n_exh)], rnd[1][:40]]
     samples = []
     for cps in sample_texts:
